@@ -100,3 +100,78 @@ def gen_storage(items):
         code = [1 if c == 'sync_directory' else 2 for c in calls]
         return DL('SAVE_METAS_CALLS', code, 'storage calls of segment_updater.rs::save_metas in source order: 1 = sync_directory, 2 = atomic_write(meta.json)')
     items.append(save_metas_order)
+
+    # ---- C10: order of the steps of garbage_collect, of the loading reader, of the commit's listing ----
+    def ordered_codes(path, fn, pats, what):
+        body = fn_body(path, fn)
+        found = []
+        for code, pat in pats:
+            m = re.search(pat, body)
+            if not m:
+                raise Fail(f'{path}::{fn}: step {code} ({what}: /{pat}/) not found')
+            found.append((m.start(), code))
+        return [c for _, c in sorted(found)]
+
+    def gc_order():
+        f = 'src/directory/managed_directory.rs'
+        codes = ordered_codes(f, 'garbage_collect', [
+            (1, r'\.meta_informations\s*\.read\(\)'),
+            (2, r'acquire_lock\(&META_LOCK\)'),
+            (3, r'get_living_files\(\)'),
+            (4, r'files_to_delete\.push\('),
+            (6, r'self\.delete\('),
+            (7, r'\.meta_informations\s*\.write\(\)'),
+            (8, r'sync_directory\(\)'),
+            (9, r'save_managed_paths\('),
+        ], 'garbage_collect')
+        return DL('GC_STEP_ORDER', codes, 'steps of managed_directory.rs::garbage_collect in source order: 1 managed read lock, 2 META_LOCK, 3 living-files callback, 4 selection, 6 delete loop, 7 managed write lock, 8 sync_directory, 9 save_managed_paths')
+    items.append(gc_order)
+
+    def reader_order():
+        f = 'src/reader/mod.rs'
+        codes = ordered_codes(f, 'open_segment_readers', [
+            (1, r'acquire_lock\(&META_LOCK\)'),
+            (2, r'searchable_segments\(\)'),
+            (3, r'SegmentReader::open'),
+        ], 'open_segment_readers')
+        return DL('READER_STEP_ORDER', codes, 'steps of reader/mod.rs::open_segment_readers in source order: 1 META_LOCK, 2 read meta.json (searchable_segments), 3 open the segment files')
+    items.append(reader_order)
+
+    def committed_metas():
+        f = 'src/indexer/segment_manager.rs'
+        codes = ordered_codes(f, 'committed_segment_metas', [
+            (1, r'self\.remove_empty_segments\(\)'),
+            (2, r'\.committed\s*\.segment_metas\(\)'),
+        ], 'committed_segment_metas')
+        body = fn_body(f, 'remove_empty_segments')
+        if not (re.search(r'\.committed', body) and re.search(r'num_docs\(\)\s*==\s*0', body) and re.search(r'\.remove_segment\(', body)):
+            raise Fail(f'{f}::remove_empty_segments no longer removes the committed segments with num_docs() == 0')
+        return DL('COMMITTED_METAS_CALLS', codes, 'segment_manager.rs::committed_segment_metas in source order: 1 remove_empty_segments() (drops committed entries with num_docs() == 0), 2 list the committed metas')
+    items.append(committed_metas)
+
+    def managed_open_write():
+        f = 'src/directory/managed_directory.rs'
+        codes = ordered_codes(f, 'open_write', [
+            (1, r'self\.register_file_as_managed\(path\)'),
+            (2, r'\.open_write\(path\)'),
+        ], 'ManagedDirectory::open_write')
+        reg = ordered_codes(f, 'register_file_as_managed', [
+            (1, r'managed_paths\.insert\('),
+            (2, r'save_managed_paths\('),
+        ], 'register_file_as_managed')
+        if reg != [1, 2]:
+            raise Fail(f'{f}::register_file_as_managed no longer inserts the path before persisting the list')
+        return DL('MANAGED_OPEN_WRITE_STEPS', codes, 'managed_directory.rs::open_write in source order: 1 register_file_as_managed (insert + save_managed_paths), 2 create the file in the wrapped directory')
+    items.append(managed_open_write)
+
+    def meta_sources():
+        f = 'src/index/index_meta.rs'
+        text = strip_comments(src(f))
+        n_track = len(re.findall(r'inventory\s*\.track\(', text))
+        n_map = len(re.findall(r'\.tracked\s*\.map\(', text))
+        for fn, pat in [('new_segment_meta', r'inventory\s*\.track\('), ('with_max_doc', r'tracked\s*\.map\('),
+                        ('with_delete_meta', r'tracked\s*\.map\('), ('deserialize', r'\.track\(inventory\)')]:
+            if not re.search(pat, fn_body(f, fn)):
+                raise Fail(f'{f}::{fn} no longer creates its tracked SegmentMeta the way the model assumes')
+        return DL('META_SOURCE_SITES', [n_track, n_map], 'index_meta.rs: number of `inventory.track(` sites (new_segment_meta, InnerSegmentMeta::track used by deserialize) and of `tracked.map(` sites (with_max_doc, with_delete_meta): the only places a tracked SegmentMeta comes to life')
+    items.append(meta_sources)
